@@ -143,6 +143,30 @@ Definition run_on (r : rt) (m : vm) (ord1 : list (N * jsval)) (ord2 : list N) (s
   let '(m1, ok) := set_args m ord1 in
   (wipe_args r sh m1 ord2, if ok then RRun (s (view r m1)) else RSetErr).
 
+(* ---- outside the property: scripts that CREATE global bindings ---------------------------------- *)
+(* [script] above cannot write globals: that is the class the property (and every theorem about
+   run_on) speaks about.  A script of the excluded class also yields the bindings it creates
+   (`t = 0`, `var n = ...`, a function declaration): execProgram wipes the ARG names only, so
+   these stay on the runtime when it goes back to the pool.  Kept executable for the witness
+   js_global_writers_refuted (Proofs/JsRefute.v); nothing else uses it. *)
+Definition gscript := gmap N jsval -> jsres * list (N * jsval).
+
+Definition apply_globals (m : vm) (delta : list (N * jsval)) : vm :=
+  fold_left (fun m '(k, v) =>
+               match m !! k with
+               | Some s => if s_w s then <[k := mkSlot v (s_w s) (s_c s)]> m else m
+               | None => <[k := mkSlot v true false]> m     (* a declared global: not deletable *)
+               end) delta m.
+
+Definition run_on_g (r : rt) (m : vm) (ord1 : list (N * jsval)) (ord2 : list N) (s : gscript)
+  : vm * runres :=
+  let sh := shadow_of r m (map fst ord1) in
+  let '(m1, ok) := set_args m ord1 in
+  if ok then
+    let '(res, delta) := s (view r m1) in
+    (wipe_args r sh (apply_globals m1 delta) ord2, RRun res)
+  else (wipe_args r sh m1 ord2, RSetErr).
+
 (* ---- sync.Pool of runtimes -------------------------------------------------------------------- *)
 (* Get returns ANY pooled item or a new one: the choice is an argument. *)
 Inductive choice := ChFresh | ChPool (i : nat).
